@@ -884,6 +884,61 @@ Section ToInternal.
             mapM (make_row (schema_names s)) internal))
     | _ => Err EUnmodelled
     end.
+  (* ---- createDataFrame(rows, [names]): the schema argument is a list of column names *)
+  (* _infer_schema(row, names) on a plain tuple: names.extend(f'_{i}' ...) when there are fewer names than values *)
+  Definition extend_names (names : list str) (n : nat) : list str :=
+    names ++ map (fun i => field_name_n i) (seq (S (List.length names)) (n - List.length names)).
+
+  (* a plain tuple / list row takes the given names (Rows and namedtuples keep their own) *)
+  Definition name_row (names : list str) (row : pyval) : pyval :=
+    match row with
+    | PTuple vals | PList vals => PRow (extend_names names (List.length vals)) vals
+    | _ => row
+    end.
+
+  (* the name list after inference: extended by every plain tuple row that was longer *)
+  Definition final_names (names : list str) (rows : list pyval) : list str :=
+    fold_left (fun ns r => match r with
+                           | PTuple vals | PList vals => extend_names ns (List.length vals)
+                           | _ => ns
+                           end) rows names.
+
+  (* session._values_in_order(own_names): a Row's values in the order of the inferred struct's own names, as a tuple *)
+  Definition values_in_order (own : list str) (r : pyval) : res pyval :=
+    match r with
+    | PRow names vals =>
+        if negb (strs_eqb names own) && nodupb names && forallb (fun n => str_mem n names) own
+        then bind (mapM (row_get names vals) own) (fun vs => Ok (PTuple vs))
+        else Ok (PTuple vals)
+    | _ => Ok r
+    end.
+
+  (* for i, name in enumerate(schema): struct.fields[i].name = name *)
+  Fixpoint rename_fields (fs : list (sfield dtype)) (given : list str) : res (list (sfield dtype)) :=
+    match given, fs with
+    | [], _ => Ok fs
+    | n :: given', SField _ ty nl m :: fs' => bind (rename_fields fs' given') (fun r => Ok (SField n ty nl m :: r))
+    | _ :: _, [] => Err EUnmodelled                       (* IndexError: more names than fields *)
+    end.
+
+  Definition create_named_with (infer : list pyval -> res dtype) (given : list str) (rows : list pyval)
+      : res (dtype * list pyval) :=
+    bind (infer (map (name_row given) rows)) (fun s =>
+      match s with
+      | TStruct fs =>
+          bind (rename_fields fs (final_names given rows)) (fun fs' =>
+            let own := map sf_name fs in
+            let s' := TStruct fs' in
+            bind (mapM (fun r => bind (convert s r) (fun r1 => bind (values_in_order own r1) (to_internal s'))) rows)
+                 (fun internal => bind (mapM (make_row (map sf_name fs')) internal) (fun out => Ok (s', out))))
+      | _ => Err EUnmodelled
+      end).
+
+  (* createDataFrame(rows, names).collect() and createDataFrame(sc.parallelize(rows), names).collect() *)
+  Definition create_named (given : list str) (rows : list pyval) : res (dtype * list pyval) :=
+    create_named_with infer_schema_from_list given rows.
+  Definition create_named_rdd (given : list str) (rows : list pyval) : res (dtype * list pyval) :=
+    create_named_with infer_schema_rdd given rows.
 End ToInternal.
 
 (* what the conversion may change: a timezone-aware datetime is re-expressed in the local zone *)
